@@ -1,10 +1,11 @@
 import Driver.Util
 open Lean Replicat
-namespace Driver
-
+namespace Driver.HSym
 /-- requests `sym.*` (see DESIGN.md Appendix A) -/
 def handleSym (op : String) (j : Json) : Except String Json := do
   match op with
   | _ => throw s!"unknown op {op}"
 
-end Driver
+end Driver.HSym
+
+def Driver.handleSym := Driver.HSym.handleSym
